@@ -1,8 +1,13 @@
 PLAN = {
     "level": "exploration",
-    # ~60-150 ms per case (three forked executions under ASan; MathML validation dominates): budgets are case counts.
-    "quick": [replays("C12"), tape("C12", 4000, size=2000, case_timeout=300)],
-    "thorough": [replays("C12"), tape("C12", 64000, size=2500, case_timeout=300)],
+    # Two flavours of the same harness. asan (ASan+UBSan, ~200 ms CPU per case: three executions of the history, MathML
+    # validation dominates) sees memory errors and undefined behaviour along the histories; plain (g++, glibc malloc, ~70 ms
+    # per case) recycles freed memory at once, so behaviour that depends on where objects happen to be allocated shows up
+    # (under ASan freed memory is quarantined and address order rarely changes). Budgets are case counts.
+    "quick": [replays("C12", prefix="C12-known-"), replays("C12", flavour="plain", prefix="C12-plain-", name="replays:C12:plain"),
+              tape("C12", 1600, size=1500, case_timeout=300), tape("C12", 3200, size=1500, flavour="plain", case_timeout=300, name="C12:rc:plain", seed_offset=500)],
+    "thorough": [replays("C12", prefix="C12-known-"), replays("C12", flavour="plain", prefix="C12-plain-", name="replays:C12:plain"),
+                 tape("C12", 30000, size=2000, case_timeout=300), tape("C12", 60000, size=2000, flavour="plain", case_timeout=300, name="C12:rc:plain", seed_offset=500)],
     "class_floors": {"probe:parse": 0.08, "probe:print": 0.06, "probe:validate": 0.04, "probe:analyse": 0.08, "probe:generate": 0.03, "probe:resolve": 0.03, "probe:flatten": 0.04,
                      "probe:annotate": 0.015, "instance:reused-after-use": 0.3, "x:print>parse": 0.02, "x:parse>parse": 0.05, "x:analyse>analyse": 0.04, "x:validate>validate": 0.02,
                      "x:resolve>flatten": 0.01, "x:analyse>generate": 0.03, "probe-has-issues": 0.1, "input:doc:garbage": 0.01, "input:doc:almost valid": 0.01, "input:model:broken": 0.05,
